@@ -298,6 +298,25 @@ impl From<SocketAddr> for ListenConfig {
     }
 }
 
+#[cfg(discv5_verif)]
+impl Socket {
+    /// Verification hook: a socket whose send/recv ends are in-memory channels owned by the
+    /// harness instead of UDP tasks.
+    pub(crate) fn verif_virtual(
+        send: mpsc::Sender<OutboundPacket>,
+        recv: mpsc::Receiver<RecvPacket>,
+    ) -> Self {
+        let (sender_exit, _) = oneshot::channel();
+        let (recv_exit, _) = oneshot::channel();
+        Socket {
+            send,
+            recv,
+            sender_exit: Some(sender_exit),
+            recv_exit: Some(recv_exit),
+        }
+    }
+}
+
 impl Drop for Socket {
     // close the send/recv handlers
     fn drop(&mut self) {
